@@ -1014,3 +1014,107 @@ Proof.
     + apply (Quiet_trans _ s1); [exact Q|apply Quiet_same; reflexivity].
     + exists c. split; [reflexivity|]. rewrite Htr. unfold dequeue, set_contract. sproj. exact Wn.
 Qed.
+
+Lemma msg_win s o : Inv s -> Strict s -> wf_op o -> (forall dts, o <> Adv dts) ->
+  Quiet s (step s o)
+  /\ forall d, sup_of (st_win (step s o)) d
+              = sup_of (st_win s) d + (wsum (wci d) (st_contracts (step s o)) - wsum (wci d) (st_contracts s)).
+Proof.
+  intros I S W Hna. unfold step. destruct o as [m|who id secret|dts]; [| |exfalso; exact (Hna dts eq_refl)]; cbn [exec].
+  - destruct (create s m) as [s'|] eqn:Hc; [|split; [apply Quiet_refl|intros; lia]].
+    destruct (create_quiet _ _ _ Hc) as [Q Wn]. split; [exact Q|]. intros d.
+    destruct (create_open_rel s m s' I W Hc) as (dr & R).
+    rewrite Wn, (or_contracts _ _ _ _ R), wsum_set, (or_fresh _ _ _ _ R). unfold wci at 2, complb, new_contract. cbn. lia.
+  - pose proof (claim_spec s who id secret I) as Hs.
+    destruct (claim s who id secret) as [s'|] eqn:Hc; [|split; [apply Quiet_refl|intros; lia]].
+    destruct (claim_quiet_win _ _ _ _ _ Hc) as (Q & c & Hg & Hw). split; [exact Q|]. intros d.
+    destruct Hs as (_ & c1 & Hg1 & Ho & _ & R). rewrite Hg in Hg1. inversion Hg1; subst c1.
+    rewrite (cr_contracts _ _ _ _ _ R), wsum_set, Hg.
+    destruct (inv_wfc _ I _ _ (get_In _ _ _ Hg)) as (_ & _ & _ & _ & _ & _ & _ & Hkind).
+    unfold wci, complb, is_in, amt. cbn. rewrite Ho. cbn. rewrite Hw.
+    destruct (c_transfer c); cbn; [|lia]. destruct Hkind as [(d0 & x & Ham & _) Hd]. rewrite Ham.
+    destruct (c_dir c); cbn; try lia. rewrite sup_of_set. rewrite (Z.eqb_sym d d0). destruct (d0 =? d) eqn:E; [|lia].
+    apply Z.eqb_eq in E. subst. lia.
+Qed.
+
+(** the monitor's update of its windows after a message *)
+Definition termW (d : denom) (id : cid) (pc c : option cobs) : Z :=
+  match pc, c with
+  | Some p', Some c' =>
+      if (c_state_of p' =? 0) && (c_state_of c' =? 1) && (c_tr_of c' =? 1) && (c_dir_of c' =? 1)
+      then amt_of (id_amount id) d else 0
+  | _, _ => 0
+  end.
+
+Definition Gci (d : denom) (oc : option contract) : Z := match oc with Some c => wci d c | None => 0 end.
+
+Lemma termW_delta P d id h0 h1 oc oc' : ctrans h0 h1 oc oc' -> (forall c, oc' = Some c -> wfc P id c) ->
+  termW d id (option_map proj_contract oc) (option_map proj_contract oc') = Gci d oc' - Gci d oc.
+Proof.
+  intros [oc0|c Ho Hc|c st h Ho Hst Hh] W.
+  - destruct oc0 as [c|]; simpl; [|lia]. unfold c_state_of, proj_contract.
+    destruct (state_code (c_state c) =? 0) eqn:E0; simpl; [|lia]. apply Z.eqb_eq in E0. rewrite E0. simpl. lia.
+  - simpl. unfold wci, complb. rewrite Ho. simpl. lia.
+  - pose proof (W _ eq_refl) as Wc. destruct (id_fields _ _ _ Wc) as (_ & _ & _ & Ha). cbn in Ha.
+    simpl. unfold wci at 2, complb. rewrite Ho. cbn.
+    rewrite Ha. unfold wci, complb, is_in, amt. cbn.
+    destruct st; [congruence| |]; cbn; [|lia].
+    destruct (c_transfer c); cbn; [|lia]. destruct (c_dir c); cbn; lia.
+Qed.
+
+Lemma wclaims_eq k po o ws (Pp Pc : cid -> option cobs) :
+  o_contracts po = map Pp (k_ids k) -> o_contracts o = map Pc (k_ids k) ->
+  wclaims k po o ws
+  = map (fun pw : aparam * (Z * Z) =>
+           (fst (snd pw), snd (snd pw) + zsum (map (fun id => termW (ap_denom (fst pw)) id (Pp id) (Pc id)) (k_ids k))))
+        (combine (k_params k) ws).
+Proof.
+  intros Hp Hc. unfold wclaims. rewrite Hp, Hc. apply map_ext. intros [p [el w]]. cbn [fst snd]. f_equal.
+  assert (G : forall l a0,
+    fold3 (fun (id : cid) (pc c : option cobs) (acc : Z) =>
+             match pc, c with
+             | Some p', Some c' =>
+                 if (c_state_of p' =? 0) && (c_state_of c' =? 1) && (c_tr_of c' =? 1) && (c_dir_of c' =? 1)
+                 then acc + amt_of (id_amount id) (ap_denom p) else acc
+             | _, _ => acc
+             end) l (map Pp l) (map Pc l) a0
+    = a0 + zsum (map (fun id => termW (ap_denom p) id (Pp id) (Pc id)) l)).
+  { induction l as [|id l IH]; intros a0; simpl; [lia|]. rewrite IH. unfold termW.
+    destruct (Pp id) as [p'|]; [|lia]. destruct (Pc id) as [c'|]; [|lia].
+    destruct ((c_state_of p' =? 0) && (c_state_of c' =? 1) && (c_tr_of c' =? 1) && (c_dir_of c' =? 1)); lia. }
+  rewrite G. lia.
+Qed.
+
+Lemma combine_map_snd {A B C} (g : A * B -> C) : forall (l : list A) (ws : list B),
+  combine l (map g (combine l ws)) = map (fun pw => (fst pw, g pw)) (combine l ws).
+Proof.
+  induction l as [|a l IH]; intros ws; simpl; [reflexivity|]. destruct ws as [|w ws]; simpl; [reflexivity|].
+  rewrite IH. reflexivity.
+Qed.
+
+Lemma WsRel_msg k nd s o code0 code po ob ws evs : StepFacts k s (step s o) evs -> Strict s -> wf_op o ->
+  (forall dts, o <> Adv dts) ->
+  Vw k nd s code0 po -> Vw k nd (step s o) code ob -> WsRel k s ws -> WsRel k (step s o) (wclaims k po ob ws).
+Proof.
+  intros F S W Hna V V' WR. pose proof (sf_inv _ _ _ _ F) as I. pose proof (sf_inv' _ _ _ _ F) as I'. pose proof (sf_tbl' _ _ _ _ F) as T.
+  destruct (msg_win s o I S W Hna) as ((Hel & _ & _) & Hwin).
+  rewrite (wclaims_eq k po ob ws (Pof s) (Pof (step s o)))
+    by (first [rewrite (vw_contracts _ _ _ _ _ V)|rewrite (vw_contracts _ _ _ _ _ V')]; reflexivity).
+  intros p w Hin Htl. rewrite combine_map_snd in Hin. apply in_map_iff in Hin.
+  destruct Hin as ([p0 [el0 w0]] & E & Hin0). cbn [fst snd] in E. inversion E; subst p w. clear E.
+  destruct (WR p0 (el0, w0) Hin0 Htl) as [He Hw]. cbn [fst snd] in *.
+  split; [unfold elmap in Hel; rewrite (Hel (ap_denom p0)); exact He|].
+  rewrite Hwin, Hw. f_equal.
+  rewrite (zsum_map_ext _ (fun id => Gci (ap_denom p0) (get id (st_contracts (step s o))) - Gci (ap_denom p0) (get id (st_contracts s)))).
+  2:{ intros id _. unfold Pof. apply (termW_delta (st_params (step s o)) _ id _ _ _ _ (sf_ct _ _ _ _ F id)).
+      intros c Hc. exact (inv_wfc _ I' _ _ (get_In _ _ _ Hc)). }
+  rewrite zsum_map_sub.
+  rewrite (table_sum (fun _ oc => Gci (ap_denom p0) oc) (wci (ap_denom p0)) (k_ids k) (tb_nodup _ _ T) (fun _ : cid => eq_refl)
+                     (st_contracts (step s o)) (inv_keys _ I')).
+  2:{ intros id c Hi. split; [|reflexivity]. destruct (In_get _ _ _ Hi) as (c' & Hg). exact (tb_complete _ _ T _ _ Hg). }
+  rewrite (table_sum (fun _ oc => Gci (ap_denom p0) oc) (wci (ap_denom p0)) (k_ids k) (tb_nodup _ _ T) (fun _ : cid => eq_refl)
+                     (st_contracts s) (inv_keys _ I)).
+  2:{ intros id c Hi. split; [|reflexivity]. destruct (In_get _ _ _ Hi) as (c' & Hg).
+      exact (sf_complete k s _ evs F id c' Hg). }
+  reflexivity.
+Qed.
